@@ -27,7 +27,7 @@ inline std::string last_exc;
 template<bool ctx, class P, class B> long rt_parse(const P& p, const B& b, int opt)
 {
     try {
-        std::ostringstream ss; parse_options o; if (opt & 1) o.set_skip_whitespace(false); if (opt & 2) o.set_skip_newline(false);
+        std::ostringstream ss; parse_options o; if (opt & 1) o.set_skip_whitespace(false); if (opt & 2) o.set_skip_newline(false); if (opt & 4) o.set_verbose();
         if constexpr (ctx) { const CCtx c{ 5 }; return ov(p.context_parse(c, o, b, ss)); }
         else return ov(p.parse(o, b, ss));
     } catch (const std::exception& e) { last_exc = e.what(); return -111; }
@@ -73,7 +73,7 @@ def emit_one(g, gi, inputs, ctx):
     lines = []
     for k, (d, opt) in enumerate(inputs):
         lit = eg.cstr(d.decode('latin-1'))
-        call = ('context_parse(vf::CCtx{ 5 }, ' if ctx else 'parse(') + 'parse_options{}%s%s, cstring_buffer(%s), ns)' % ('.set_skip_whitespace(false)' if opt & 1 else '', '.set_skip_newline(false)' if opt & 2 else '', lit)
+        call = ('context_parse(vf::CCtx{ 5 }, ' if ctx else 'parse(') + 'parse_options{}%s%s%s, cstring_buffer(%s), ns)' % ('.set_skip_whitespace(false)' if opt & 1 else '', '.set_skip_newline(false)' if opt & 2 else '', '.set_verbose()' if opt & 4 else '', lit)
         if ctx: call = call.replace('vf::CCtx{ 5 }', 'cc')
         lines.append('constexpr long c%d = vf::ov([]{ utils::no_stream ns; %sreturn p.%s; }()); /*CASE %d:%d*/' % (k, 'const vf::CCtx cc{ 5 }; ' if ctx else '', call, gi, k))
     o += lines
@@ -135,7 +135,7 @@ def pick_inputs(g, tb, rnd, n):
         i = rnd.randrange(len(base) + 1)
         out.append(base[:i] + bytes([rnd.choice(b'?#\x00\x00\x01\x7f\xff' + alph.encode('latin-1'))]) + base[i:])      # lexically wrong or mutated
     uniq = list(dict.fromkeys(out))
-    return [(d, rnd.choice([0, 0, 0, 1, 2, 3])) for d in uniq]
+    return [(d, rnd.choice([0, 0, 0, 1, 2, 3, 4, 4, 6])) for d in uniq]      # bit 0: whitespace not skipped, bit 1: newlines not skipped, bit 2: verbose (pointless during constant evaluation, but legal)
 
 def _worker(spec):
     rnd = random.Random(spec['seed'])
